@@ -46,6 +46,7 @@ func TestDiag(t *testing.T) {
 	if err != nil {
 		t.Fatal(err)
 	}
+	chainkit.Start(rep)
 	for k := uint32(1); k <= h; k++ {
 		if err := rep.AddBlock(src.block(k)); err != nil {
 			t.Fatal(err)
